@@ -177,6 +177,102 @@ pub fn check_pair(c: &PairCase) -> CheckResult {
         .class_if(block > 0 && consumed > 64 * block.min(16), "beyond-64-blocks"))
 }
 
+/// JitterRng over its whole public API: two instances with different timers, round counts,
+/// histories (output calls, timer_stats, set_rounds, test_timer, clones) and pool contents (preset
+/// through the cfg(rngs_verif) hook: zero, all ones, single bits, ...). JitterRng's only public
+/// read position is "a half is pending or not"; whenever the two agree on that, the texts must be
+/// identical, and the text never contains the pool.
+#[derive(Clone, Debug, Serialize, Deserialize)]
+pub struct JitApiCase {
+    pub a: (gens::TimerProg, u8, Option<u64>, Vec<crate::props::c12::JOp>),
+    pub b: (gens::TimerProg, u8, Option<u64>, Vec<crate::props::c12::JOp>),
+}
+
+pub fn check_jit_api(c: &JitApiCase) -> CheckResult {
+    use crate::props::c12::JOp;
+    let build = |s: &(gens::TimerProg, u8, Option<u64>, Vec<JOp>)| {
+        let mut g = adapter::jitter_gen(s.0.script(), if s.1 == 0 { None } else { Some(s.1) }, 3_000_000);
+        if let Some(p) = s.2 {
+            g.jitter().unwrap().set_pool(p);
+        }
+        g
+    };
+    let (mut a, mut b) = (build(&c.a), build(&c.b));
+    let step = |g: &mut Box<dyn Gen>, pending: &mut bool, op: &JOp| {
+        match op {
+            JOp::U32 => {
+                g.next_u32();
+                *pending = !*pending;
+            }
+            JOp::U64 => {
+                g.next_u64();
+                *pending = false;
+            }
+            JOp::Fill(n) => {
+                crate::ops::fill_unaligned(&mut **g, *n);
+                match n % 8 {
+                    0 => {
+                        if *n > 0 {
+                            *pending = false
+                        }
+                    }
+                    5..=7 => *pending = false,
+                    _ => *pending = if n / 8 > 0 { true } else { !*pending },
+                }
+            }
+            JOp::Stats(v) => {
+                g.jitter().unwrap().timer_stats(*v);
+            }
+            JOp::Rounds(r) => g.jitter().unwrap().set_rounds((*r).max(1)),
+            JOp::TestTimer => {
+                let _ = g.jitter().unwrap().test_timer();
+            }
+            JOp::Clone => {
+                *g = g.clone_box();
+                *pending = false;
+            }
+        }
+    };
+    let (mut pa, mut pb) = (false, false);
+    let n = c.a.3.len().max(c.b.3.len());
+    let mut compared = 0;
+    for k in 0..=n {
+        if pa == pb {
+            compared += 1;
+            let (da, db, xa, xb) = (a.debug(), b.debug(), a.debug_alt(), b.debug_alt());
+            if da != db || xa != xb {
+                let (e, g) = if da != db { (da, db) } else { (xa, xb) };
+                return Err(Fail::new("C17:depends-on-state:JitterRng", format!("Debug text differs between two JitterRng instances at the same public read position (half pending: {}) after {} steps of different histories: it depends on timer, configuration or pool", pa, k)).exp_act(e, g));
+            }
+        }
+        for g in [&mut a, &mut b] {
+            if let Some(pool) = g.jitter().and_then(|j| j.pool()) {
+                if pool >= 1 << 20 {
+                    let mut sens = HashSet::new();
+                    sens.insert(pool);
+                    sens.insert(pool >> 32);
+                    sens.insert(pool & 0xffff_ffff);
+                    sens.retain(|v| *v >= 1 << 20);
+                    for text in [g.debug(), g.debug_alt()] {
+                        if let Some(w) = leak(&text, &sens) {
+                            return Err(Fail::new("C17:leaks-word:JitterRng", format!("Debug text contains (half of) the entropy pool {:#x}: {}", w, text)));
+                        }
+                    }
+                }
+            }
+        }
+        if k < n {
+            if let Some(op) = c.a.3.get(k) {
+                step(&mut a, &mut pa, op);
+            }
+            if let Some(op) = c.b.3.get(k) {
+                step(&mut b, &mut pb, op);
+            }
+        }
+    }
+    Ok(CaseInfo::new(compared >= 2 && (c.a.1 != c.b.1 || c.a.2 != c.b.2)).class_if(c.a.1 != c.b.1, "different-rounds").class_if(c.a.2.is_some() || c.b.2.is_some(), "pool-preset").class_if(c.a.2 == Some(0) || c.b.2 == Some(0), "zero-pool"))
+}
+
 pub fn check_core(c: &CoreCase) -> CheckResult {
     macro_rules! go {
         ($Core:ty, $name:expr) => {{
@@ -243,6 +339,19 @@ pub fn def(ctx: &Ctx) -> PropDef {
         ));
     }
     subs.push(PSub::boxed(
+        "jitter-api-pairs",
+        t.pick(1500, 150_000),
+        || {
+            let side = || {
+                let ops = proptest::collection::vec(prop_oneof![8 => crate::props::c12::jop(20), 1 => Just(crate::props::c12::JOp::TestTimer), 1 => Just(crate::props::c12::JOp::Clone)], 0..=6);
+                let rounds = prop_oneof![2 => Just(0u8), 6 => 1u8..=6, 1 => Just(64u8), 1 => 7u8..=255];
+                (gens::timer_prog(false, 6), rounds, proptest::option::weighted(0.5, crate::props::c12::structured_value()), ops)
+            };
+            (side(), side()).prop_map(|(a, b)| JitApiCase { a, b }).boxed()
+        },
+        check_jit_api,
+    ));
+    subs.push(PSub::boxed(
         "cores",
         t.pick(4000, 300_000),
         || (0u8..3, gens::seed_for(Ty::Isaac, true), gens::seed_for(Ty::Isaac, true), prop_oneof![3 => 0usize..=4, 1 => 60usize..=140]).prop_map(|(which, a, b, blocks)| CoreCase { which, a, b, blocks }).boxed(),
@@ -250,7 +359,7 @@ pub fn def(ctx: &Ctx) -> PropDef {
     ));
     PropDef {
         id: "C17",
-        rule: "cases = pairs of generators of the same state-hiding type (XorShiftRng, Hc128Rng, IsaacRng, Isaac64Rng, scripted JitterRng; cores Hc128Core, IsaacCore, Isaac64Core) built from two generated seeds / timers and driven by the same generated history; after every operation {:?} and {:#?} of the two must be byte-identical (same history => same public read position), the text must also be identical between two moments of one history at which the public read position (derived from the calls made) is the same, and constant over time for the cores, XorShiftRng and JitterRng (histories reach beyond 64 blocks / 1024 words of HC-128), and no decimal or hex token of the text may equal a state word, an upcoming buffered word or one of the last outputs if that word is >= 2^20 (small numbers legitimately appear as index / result_len). The text itself is not pinned. Non-trivial = the two seeds differ and >= 1 operation was applied; distinct by hash of the case.".into(),
+        rule: "cases = pairs of generators of the same state-hiding type (XorShiftRng, Hc128Rng, IsaacRng, Isaac64Rng, scripted JitterRng; cores Hc128Core, IsaacCore, Isaac64Core) built from two generated seeds / timers and driven by the same generated history; after every operation {:?} and {:#?} of the two must be byte-identical (same history => same public read position), the text must also be identical between two moments of one history at which the public read position (derived from the calls made) is the same, and constant over time for the cores, XorShiftRng and JitterRng; jitter-api-pairs: two JitterRng with different timers, round counts (incl. the initial one), pool contents (preset through the hook: zero, all ones, single bits, half words) and different histories over the whole public API (output calls, timer_stats, set_rounds, test_timer, clones) must print identical text whenever they agree on the only public read position JitterRng has (a half pending or not), and the text must not contain the pool (histories reach beyond 64 blocks / 1024 words of HC-128), and no decimal or hex token of the text may equal a state word, an upcoming buffered word or one of the last outputs if that word is >= 2^20 (small numbers legitimately appear as index / result_len). The text itself is not pinned. Non-trivial = the two seeds differ and >= 1 operation was applied; distinct by hash of the case.".into(),
         explanation: None,
         assumptions: vec!["buffered words are observed as the upcoming outputs of a clone; XorShiftRng state through its validated serde image".into()],
         subs,
